@@ -1,4 +1,4 @@
 import RattrModel.Basic
-import RattrModel.Generated
+import RattrModel.Generated.C04
 import RattrModel.Swaps
 import RattrModel.Spec.PyBind
